@@ -175,6 +175,16 @@ func (im *Impl) Exec(line string) (out string) {
 			return "list -"
 		}
 		return "list " + strings.Join(items, ",")
+	case "itera":
+		var items []string
+		im.st.IterateRangeAll(unhx(t[1]), unhx(t[2]), t[3] == "1", func(k, v []byte) bool {
+			items = append(items, hx(k)+"="+valTok(v))
+			return false
+		})
+		if len(items) == 0 {
+			return "list -"
+		}
+		return "list " + strings.Join(items, ",")
 	case "begin":
 		im.st.BeginTxSession()
 		return "ok"
